@@ -153,7 +153,7 @@ def run_gen(args, PROP, gen_kind, modes, rule, extra_assumptions, extra_coverage
         print("replay: verdict now %r" % f)
         return 0
 
-    ncases = 30 if tier == "quick" else 80
+    ncases = (90 if PROP == "C02" else 30) if tier == "quick" else (160 if PROP == "C02" else 80)
     shards = 12 if tier == "quick" else 64
     jobs = make_jobs(tier, seed, work, ncases, shards, modes, gen_kind)
     with ThreadPoolExecutor(args.workers or 16) as ex:
